@@ -52,3 +52,12 @@ Fixpoint for_items_keys (ks : list Z) (m : relmap) (body : Z -> Z -> Q -> res (Q
   end.
 Definition for_items (m : relmap) (body : Z -> Z -> Q -> res (Q + Q)) (acc : Q) : res (Q + Q) :=
   for_items_keys [0%Z; 1%Z; 2%Z; 3%Z] m body acc.
+
+(* `out = rndint(); while c(out): out = rndint()` with rndint = lambda: <draw> % m : the first draw of the queue
+   (reduced modulo m) for which c is false; an exhausted queue is OutOfFuel *)
+Fixpoint draw_while (c : Z -> bool) (q : list Z) (m : Z) : res Z :=
+  match q with
+  | [] => Raise OutOfFuel
+  | d :: q' => if m =? 0 then Raise ZeroDivisionError
+               else if c (d mod m) then draw_while c q' m else Ok (d mod m)
+  end.
